@@ -329,27 +329,142 @@ fn run_wide(seed: u64, idx: u64) -> CaseOut {
     co
 }
 
+/// `{wide_msg}` next to *wide* neighbours: the rest of the line is made of padded fields whose widths
+/// add up to anything from 0 to beyond 2^17 columns (the boundaries of every integer type a column
+/// count could be squeezed into on the way). The wide field must receive exactly
+/// `terminal width - rest` columns, saturating at zero.
+fn run_wide_rest(seed: u64, idx: u64) -> CaseOut {
+    let mut rng = Rng::derive(seed, 1201, idx);
+    let w = match rng.below(4) {
+        0 => rng.range(4, 40),
+        1 => rng.range(40, 300),
+        2 => rng.range(300, 5000),
+        _ => *rng.pick(&[255u64, 256, 257, 32767, 32768, 65535]),
+    } as usize;
+    // total width of the padded neighbours
+    let near = |rng: &mut Rng, c: u64| c.saturating_sub(rng.range(0, 3)) + rng.range(0, 3);
+    let total: u64 = match rng.below(8) {
+        0 => rng.range(0, w as u64 + 5),
+        1 => near(&mut rng, 255),
+        2 => near(&mut rng, 65535),
+        3 => 65536 + rng.range(0, w as u64 + 3),
+        4 => near(&mut rng, 65536 + w as u64),
+        5 => 131072 + rng.range(0, w as u64 + 3),
+        6 => rng.range(0, 140_000),
+        _ => near(&mut rng, w as u64),
+    };
+    // split it over two or three fields of at most 65535 columns each plus literal characters
+    let lit = rng.range(0, 3).min(total) as usize;
+    let mut remaining = total - lit as u64;
+    let mut widths = Vec::new();
+    while remaining > 0 && widths.len() < 3 {
+        let take = if widths.len() == 2 { remaining.min(65535) } else { rng.range(0, remaining.min(65535)) };
+        widths.push(take);
+        remaining -= take;
+    }
+    // a field narrower than its content shows the content unshortened ("P", "7", "10")
+    let content_cols = [1u64, 1, 2];
+    let rest_cols = widths.iter().enumerate().map(|(i, fw)| (*fw).max(content_cols[i])).sum::<u64>() as usize + lit;
+    if rest_cols.div_ceil(w) + 2 > 59_000 {
+        // would not fit the spy terminal's height: the frame would be cut (a different property)
+        return CaseOut::held(idx, false);
+    }
+    let keys = ["prefix", "pos", "len"];
+    let mut spec = String::new();
+    for (i, fw) in widths.iter().enumerate() {
+        spec.push_str(&format!("{{{}:{}}}", keys[i], fw));
+    }
+    spec.push_str(&"<>|"[..lit.min(3)]);
+    let wide_first = rng.chance(1, 4);
+    let spec = if wide_first { format!("{{wide_msg}}{spec}") } else { format!("{spec}{{wide_msg}}") };
+    let msg_cols = match rng.below(3) {
+        0 => rng.usize(8),
+        1 => w,
+        _ => w + rng.usize(30),
+    };
+    let msg: String = (0..msg_cols).map(|i| (b'a' + (i % 26) as u8) as char).collect();
+    let mut co = CaseOut::held(fnv1a(format!("{w}:{spec}:{msg_cols}").as_bytes()), true);
+    let style = ProgressStyle::with_template(&spec).unwrap();
+    let m = msg.clone();
+    let r = render_with(w as u16, Some(10), style, move |pb| {
+        pb.set_prefix("P");
+        pb.set_position(7);
+        pb.set_message(m)
+    });
+    let witness = J::obj().with("template", spec.clone()).with("terminal_width", w).with("message_columns", msg_cols).with("rest_of_line_columns", rest_cols);
+    let mut feat = vec!["wide_msg".to_string(), "wide-neighbours".to_string()];
+    if rest_cols >= 65536 {
+        feat.push("rest>=65536".into());
+    }
+    match r {
+        Err(p) => {
+            co.verdict = Verdict::Violated(Box::new(Violation {
+                rule: "panic".into(),
+                features: feat,
+                detail: format!("{spec} at width {w} panicked: {p}"),
+                witness,
+                replay: format!("v{seed}:{idx}"),
+            }))
+        }
+        Ok(r) => {
+            let line = r.lines.first().cloned().unwrap_or_default();
+            let c = cols_of(&line);
+            let left = w.saturating_sub(rest_cols);
+            // the wide field is exactly `left` columns: the message's first `left` columns, padded
+            let mut want_field: String = msg.chars().take(left).chain(std::iter::repeat(' ')).take(left).collect();
+            if !wide_first {
+                // at the end of the line the invisible padding is dropped
+                want_field.truncate(want_field.trim_end().len());
+            }
+            let got_field: String = if wide_first {
+                line.chars().take(c.saturating_sub(rest_cols)).collect()
+            } else {
+                line.chars().skip(rest_cols).collect()
+            };
+            if c != rest_cols + want_field.len() || got_field != want_field {
+                co.verdict = Verdict::Violated(Box::new(Violation {
+                    rule: "wide-msg-wrong-width".into(),
+                    features: feat,
+                    detail: format!(
+                        "{spec} on a {w}-column terminal: the rest of the line takes {rest_cols} columns, so wide_msg must get {left}; the line is {c} columns wide and the wide field reads {:?} (expected {:?})",
+                        got_field.chars().take(60).collect::<String>(),
+                        want_field.chars().take(60).collect::<String>()
+                    ),
+                    witness,
+                    replay: format!("v{seed}:{idx}"),
+                }));
+            }
+        }
+    }
+    co.count("wide_msg_lines_measured", 1);
+    co.max("widest_rest_of_line_columns", rest_cols as u64);
+    co
+}
+
 pub fn run(cfg: &RunCfg) -> PropResult {
     console::set_colors_enabled(false);
     let exhaustive_n: u64 = 41 * 4 * 2 * 5 * 3;
     let report = if let Some(case) = &cfg.case {
         let wide = case.starts_with('w');
-        let mut it = case.trim_start_matches('w').split(':');
+        let rest = case.starts_with('v');
+        let mut it = case.trim_start_matches(['w', 'v']).split(':');
         let seed: u64 = it.next().and_then(|s| s.parse().ok()).unwrap_or(cfg.seed);
         let idx: u64 = it.next().and_then(|s| s.parse().ok()).unwrap_or(0);
         let mut r = crate::report::Report::default();
-        r.add(idx, if wide { run_wide(seed, idx) } else { run_case(seed, idx, exhaustive_n) });
+        r.add(idx, if rest { run_wide_rest(seed, idx) } else if wide { run_wide(seed, idx) } else { run_case(seed, idx, exhaustive_n) });
         r
     } else {
         let n = if cfg.thorough { 6_000_000 } else { 60_000 };
         let nw = if cfg.thorough { 1_000_000 } else { 20_000 };
         let mut r = run_parallel(n, workers(), |i| run_case(cfg.seed, i, exhaustive_n));
-        r.merge(run_parallel(nw, workers(), |i| run_wide(cfg.seed, i)));
+        r.merge(crate::report::run_parallel_tagged('w', nw, workers(), |i| run_wide(cfg.seed, i)));
+        let nv = if cfg.thorough { 60_000 } else { 1_500 };
+        r.merge(crate::report::run_parallel_tagged('v', nv, workers(), |i| run_wide_rest(cfg.seed, i)));
         r
     };
     PropResult {
         report,
-        rule: "one rendered field per evaluation: widths 0..=40 x alignment (none,<,^,>) x truncation on/off x content class (ascii, multibyte-1col, wide-2col, ansi, combining) x (shorter, exact, longer) enumerated completely, then sampled widths up to 65535 and {wide_msg} lines on terminals 1..120 columns; non-trivial = the field was measured and the content is non-empty; distinct = hash of (width, alignment, truncation, content)".into(),
+        rule: "one rendered field per evaluation: widths 0..=40 x alignment (none,<,^,>) x truncation on/off x content class (ascii, multibyte-1col, wide-2col, ansi, combining) x (shorter, exact, longer) enumerated completely, then sampled widths up to 65535 and {wide_msg} lines on terminals 1..120 columns, and {wide_msg} next to padded neighbours whose widths add up to 0..140000 columns (around 255, 65535, 65536+w, 131072) on terminals of 4..65535 columns; non-trivial = the field was measured and the content is non-empty; distinct = hash of (width, alignment, truncation, content)".into(),
         exhaustive: false,
     }
 }
